@@ -89,3 +89,13 @@ cfg("MC_multi_vars.cfg", multi_consts(FieldAlpha="<- AlphaMultiV", ArgOpts="<- A
 cfg("MC_multi_ops.cfg", multi_consts(FieldAlpha="<- AlphaMultiO", MaxOps="= 2", Aliases='= {""}', MaxSel="= 3", OverlayKinds="<- OKindsRaise"), MULTI_INV, spec="SpecM")
 cfg("MC_multi_faults.cfg", multi_consts(FieldAlpha="<- AlphaMultiF", Aliases='= {""}', MaxSel="= 2", SeqFields="<- SomeFieldNames", LConc="= FALSE"), MULTI_INV, spec="SpecM")
 cfg("MC_multi_three.cfg", multi_consts(FieldAlpha="<- AlphaMultiT", Aliases='= {""}', MaxSel="= 1", NReq="= 3"), MULTI_INV, spec="SpecM")
+
+# ---- C16: cache / history ------------------------------------------------------------------
+CACHE_INV = ["Coherent", "Bounded", "NoDupKeys", "Transparent", "ErrorClassesRunNothing", "EmitE"]
+def cache_consts(**kw):
+    d = {"Types": "<- TypesExec", "Roots": "<- RootsExec", "Docs": "<- DocsStd", "ReqPool": "<- PoolSmall", "Capacity": "= 1", "MaxLen": "= 4"}
+    d.update(kw)
+    return d
+for cap, nm in ((0, "off"), (1, "k1"), (2, "k2"), (99, "inf")):
+    cfg("MC_cache_%s.cfg" % nm, cache_consts(Capacity="= %d" % cap, MaxLen="= 4"), CACHE_INV, spec="SpecE")
+    cfg("MC_cache_%s_big.cfg" % nm, cache_consts(Capacity="= %d" % cap, MaxLen="= 4", ReqPool="<- PoolStd"), CACHE_INV, spec="SpecE")
